@@ -1692,12 +1692,13 @@ def c20(W, replay=None):
     else:
         scen = [json.loads(l) for l in open(os.path.join(replay, "scenario.ndjson")) if l.strip()]
     index = {s_["id"]: s_ for s_ in scen}
-    trace = W.drive("TestTLS", scen, "tls", timeout=3000)
+    # "the system roots" of the driver process: a file that the driver itself fills with an authority of its own before it builds its first pool
+    trace = W.drive("TestTLS", scen, "tls", timeout=3000, env_extra={"SSL_CERT_FILE": W.path("verif-sysroots.pem"), "SSL_CERT_DIR": W.path("no-such-dir")})
     v = W.validate(trace, "tls", module="TLSTrace")
     if v["fired"].get("scenarios", 0) != len(scen):
         raise Infra("TLSTrace judged %s scenarios, driver ran %d" % (v["fired"].get("scenarios"), len(scen)))
     return judge("C20", W, [v], index, traces=len(scen), samples=[{"scenario": scen[0], "recorded_events": sample_events_at(trace, 3)}],
-                 assumptions=["real handshakes through the HTTP client the service builds (NewHTTPClient) against loopback servers certified by CA1 / CA2; system roots trust neither",
+                 assumptions=["real handshakes through the HTTP client the service builds (NewHTTPClient) against loopback servers certified by CA1 / CA2 and by an authority that is the driver process' only system root (SSL_CERT_FILE)",
                               "refresh interval 30 ms of real time; after a rewrite the driver polls up to 200 intervals for the observation to change before judging"])
 
 
